@@ -1,6 +1,7 @@
 """C07 — Saving unchanged tags is lossless and idempotent; ID3/APEv2 bytes do not depend on insertion order."""
 import struct
 import containers
+import id3file_tie
 import formats as F
 import walkers
 import id3spec
@@ -360,6 +361,7 @@ def run(ctx):
     huge_padding(ctx)
     unknown_kept(ctx)
     order_independence(ctx)
+    id3file_tie.run(ctx)
 
 
 def search(ctx):
